@@ -77,6 +77,8 @@ def run(ctx):
     def rows_of(c):
         """[(key term, value term)] a set / validate call stands for: itself - or, when it sits in a loop over a literal array of
         (key, value) pairs (`for (k, v) in entries { db.set(k, v)? }`), one row per array element"""
+        if getattr(c, "_rows", None) is not None:
+            return c._rows
         kt, vt = origin(v, c.args[1]), origin(v, c.args[2])
         def table(t):
             for x in subterms(t):
@@ -119,6 +121,48 @@ def run(ctx):
         if extra:
             return False, "%s (through %s)" % (show(t)[:70], ", ".join(extra))
         return (want is not None and mentions(t, want)), show(t)[:100]
+    # the same table walked by an iterator adapter: `entries.iter().try_for_each(|(k, v)| db.validate(k, v))`
+    class _AdapterSite:
+        def __init__(self, call, rows):
+            self.c, self._rows = call, rows
+            self.bb, self.t, self.args, self.method, self.line = call.bb, call.t, call.args, call.method, call.line
+        def where(self):
+            return self.c.where()
+
+    def _tuple_table(t):
+        for x in subterms(t):
+            if x[0] == "agg" and x[1] == "array" and x[2] and all(e[0] == "agg" and e[1] == "tuple" and len(e[2]) == 2 for e in x[2]):
+                return x
+        return None
+
+    def _param_col(t):
+        comp = None
+        for x in subterms(t):
+            if x[0] == "field" and x[2] in (".0", ".1"):
+                y = x[1]
+                while y[0] in ("deref", "ref", "cast"):
+                    y = y[1]
+                if y[0] == "param":
+                    comp = int(x[2][1:])
+        return comp
+    for A in v.calls():
+        if v.is_cleanup(A.bb) or (A.method or "") not in ("try_for_each", "for_each", "all", "try_fold") or not A.args:
+            continue
+        tab = _tuple_table(origin(v, A.args[0]))
+        if tab is None:
+            continue
+        for cid in ((A.func or {}).get("arg_cl") or []):
+            g = F.fns.get(cid)
+            if g is None:
+                continue
+            g = F.inlined(g)
+            for x in g.calls():
+                if g.is_cleanup(x.bb) or (x.method or "") not in ("set", "validate") or "ConfigDatabase" not in (x.self_ty or x.target_path or ""):
+                    continue
+                ck, cv = _param_col(origin(g, x.args[1])), _param_col(origin(g, x.args[2]))
+                if ck == 0 and cv == 1:
+                    site = _AdapterSite(A, [(e[2][0], e[2][1]) for e in tab[2]])
+                    (sets if x.method == "set" else vals).append(site)
     skeys = [key_of_term(kt) for c in sets for (kt, _) in rows_of(c)]
     vkeys = [key_of_term(kt) for c in vals for (kt, _) in rows_of(c)]
     R.ob(sorted(skeys) == sorted(KEYS), "WIRE", v.where(), "WIRE|config|written-keys", "keys written on a fresh directory are %s; expected %s" % (sorted(skeys), sorted(KEYS)),
